@@ -54,6 +54,9 @@ type (
 	}
 )
 
+// maxFuncOfArgs is the most inputs plus outputs that reflect.FuncOf accepts (it panics beyond that)
+const maxFuncOfArgs = 128
+
 // NewCallable initialises a new Callable from fn, which must be a non-nil function, but is otherwise unconstrained,
 // note a panic will occur if fn is not a function, or is a function but isn't non-nil
 func NewCallable(fn interface{}) Callable {
@@ -96,13 +99,18 @@ func CallArgs(args ...interface{}) CallOption {
 		if err != nil {
 			return fmt.Errorf(`bigbuff.CallArgs %s`, err)
 		}
+		if len(in) > maxFuncOfArgs {
+			return fmt.Errorf(`bigbuff.CallArgs args error: invalid length: max=%d len=%d`, maxFuncOfArgs, len(in))
+		}
 		config.args = reflect.MakeFunc(
 			reflect.FuncOf(nil, in, false),
 			func([]reflect.Value) (results []reflect.Value) {
 				results = make([]reflect.Value, len(in))
 				for i, in := range in {
 					results[i] = reflect.New(in).Elem()
-					results[i].Set(reflect.ValueOf(args[i]))
+					if args[i] != nil {
+						results[i].Set(reflect.ValueOf(args[i]))
+					}
 				}
 				return
 			},
@@ -119,6 +127,9 @@ func CallResults(results ...interface{}) CallOption {
 			return fmt.Errorf(`bigbuff.CallResults results error: invalid length: mandatory=%d len=%d`, len(out), len(results))
 		}
 		for i, out := range out {
+			if results[i] == nil {
+				return fmt.Errorf(`bigbuff.CallResults results[%d] error: nil not ptr`, i)
+			}
 			v := reflect.ValueOf(results[i])
 			t := v.Type()
 			if kind := t.Kind(); kind != reflect.Ptr {
@@ -227,6 +238,8 @@ func (x *callable) Call(args, results interface{}) error {
 	var in []reflect.Value
 	if argsV != (reflect.Value{}) {
 		in = argsV.Call(nil)
+	} else if t := x.Type(); t.NumIn() > 1 || (t.NumIn() == 1 && !t.IsVariadic()) {
+		return fmt.Errorf(`bigbuff.callable args error: omitted but %v has mandatory input`, t)
 	}
 
 	out := x.callableValue.Call(in)
@@ -269,6 +282,14 @@ func resolveArgs(this reflect.Type, args []reflect.Type) ([]reflect.Type, error)
 		return nil, fmt.Errorf(`args error: invalid length: mandatory=%d variadic=%v len=%d`, len(in), variadic != nil, len(args))
 	}
 	for i, in := range in {
+		if args[i] == nil {
+			// untyped nil: passed as the zero value, which must be nil
+			switch in.Kind() {
+			case reflect.Chan, reflect.Func, reflect.Interface, reflect.Map, reflect.Ptr, reflect.Slice, reflect.UnsafePointer:
+				continue
+			}
+			return nil, fmt.Errorf(`args[%d] error: nil not assignable to %v`, i, in)
+		}
 		if !args[i].AssignableTo(in) {
 			return nil, fmt.Errorf(`args[%d] error: %v not assignable to %v`, i, args[i], in)
 		}
